@@ -3,6 +3,9 @@ package main
 import (
 	"encoding/json"
 	"fmt"
+	"os"
+	"strconv"
+	"time"
 
 	"github.com/cockroachdb/apd/v3"
 )
@@ -127,7 +130,41 @@ func mkA(op string, c Ctx, x, y Dec, q int, al string, pre Dec) AEv {
 	if !binOps[op] {
 		y = x
 	}
-	return AEv{K: "a", Op: op, Ctx: c, X: x, Y: y, Q: q, Al: al, Pre: pre, AOut: runA(op, c, x, y, q, al, pre)}
+	return AEv{K: "a", Op: op, Ctx: c, X: x, Y: y, Q: q, Al: al, Pre: pre, AOut: runAGuard(op, c, x, y, q, al, pre)}
+}
+
+// runAGuard runs the call under a watchdog: a call that does not return within
+// the limit is recorded as panic="timeout" (no spec action admits it) and its
+// goroutine is abandoned. After maxLeaks such calls the driver stops early.
+func runAGuard(op string, c Ctx, x, y Dec, q int, al string, pre Dec) AOut {
+	if leaks >= maxLeaks {
+		return AOut{Panic: "skipped-after-timeouts", Res: none, XA: none, YA: none}
+	}
+	ch := make(chan AOut, 1)
+	go func() { ch <- runA(op, c, x, y, q, al, pre) }()
+	t := time.NewTimer(callLimit())
+	defer t.Stop()
+	select {
+	case o := <-ch:
+		return o
+	case <-t.C:
+		leaks++
+		return AOut{Panic: "timeout", Res: none, XA: none, YA: none}
+	}
+}
+
+var none = Dec{F: -1, C: []int{}}
+var leaks = 0
+
+const maxLeaks = 3
+
+func callLimit() time.Duration {
+	if s := os.Getenv("VERIF_CALL_LIMIT_S"); s != "" {
+		if n, err := strconv.Atoi(s); err == nil && n > 0 {
+			return time.Duration(n) * time.Second
+		}
+	}
+	return 20 * time.Second
 }
 
 func init() {
@@ -144,7 +181,7 @@ func init() {
 		arithS(g, []string{"quoint", "rem"}, []string{"quantize", "tointx", "tointv", "ceil", "floor", "reduce"}, true)
 	}
 	drivers["intL"] = func(g *G) {
-		arithL(g, []string{"quoint", "rem", "quantize", "tointx", "tointv", "ceil", "floor", "reduce"})
+		arithLInt(g, []string{"quoint", "rem", "quantize", "tointx", "tointv", "ceil", "floor", "reduce"})
 	}
 }
 
@@ -295,4 +332,92 @@ func (r *Rand) perturb(x Dec) Dec {
 		b.Neg(b)
 	}
 	return finDec(x.N, b, x.E)
+}
+
+// arithLInt: the large seeded domain for the integer-valued operations. The
+// exponent gap between the operands (which becomes digits of the quotient or
+// of the aligned operands) is kept within a few times the precision, with a
+// tail up to 150.
+func arithLInt(g *G, ops []string) {
+	n := g.pick(6000, 300000)
+	for i := 0; i < n; i++ {
+		c := g.R.randCtxL(30)
+		x := g.R.randL(c.P, 20)
+		y := g.R.randL(c.P, 20)
+		gap := g.R.between(-c.P-3, 2*c.P+6)
+		if g.R.Intn(8) == 0 {
+			gap = g.R.between(-150, 150)
+		}
+		y.E = x.E - gap
+		if g.R.Intn(6) == 0 { // trailing zeros (Reduce, exact quotients)
+			k := g.R.between(1, 12)
+			b := bigOfLimbs(x.C)
+			for j := 0; j < k; j++ {
+				b.Mul(b, bigInt(10))
+			}
+			x = finDec(x.N, b, x.E-k)
+		}
+		if g.R.Intn(40) == 0 {
+			x = specialDecs[g.R.Intn(len(specialDecs))]
+		}
+		if g.R.Intn(40) == 0 {
+			y = specialDecs[g.R.Intn(len(specialDecs))]
+		}
+		for _, op := range ops {
+			q := 0
+			if op == "quantize" {
+				q = x.E + g.R.between(-c.P-3, c.P+6)
+				if g.R.Intn(5) == 0 {
+					q = x.E + g.R.between(-60, 60)
+				}
+			}
+			g.emit(mkA(op, c, x, y, q, "", fresh), op)
+		}
+	}
+}
+
+// specials: the finite space of C08 - every operation x every combination of
+// {NaN, sNaN, +-Inf, +-0 with three exponents, a few finite values} x contexts,
+// exhaustively in both tiers.
+func init() {
+	drivers["specials"] = func(g *G) {
+		var vals []Dec
+		vals = append(vals, specialDecs...)
+		for _, e := range []int{-2, 0, 3} {
+			vals = append(vals, finDec(false, bigInt(0), e), finDec(true, bigInt(0), e))
+		}
+		for _, f := range [][2]int{{1, 0}, {2, 0}, {3, 0}, {5, -1}, {15, -1}, {10, 0}, {7, 0}, {1, 2}, {999, -3}} {
+			vals = append(vals, finDec(false, bigInt(int64(f[0])), f[1]), finDec(true, bigInt(int64(f[0])), f[1]))
+		}
+		type rg struct{ p, emin, emax int }
+		var ctxs []Ctx
+		for i, r := range []rg{{3, -2, 3}, {7, -100, 100}, {1, 0, 3}} {
+			for _, m := range append([]string{""}, modeNames...) {
+				ctxs = append(ctxs, Ctx{P: r.p, Emin: r.emin, Emax: r.emax, R: m, T: 0})
+				if i == 0 || g.thorough() {
+					ctxs = append(ctxs, Ctx{P: r.p, Emin: r.emin, Emax: r.emax, R: m, T: 0x7af}) // DefaultTraps
+				}
+			}
+		}
+		un := []string{"abs", "neg", "round", "quantize", "tointx", "tointv", "ceil", "floor", "reduce", "sqrt", "cbrt", "exp", "ln", "log10"}
+		bin := []string{"add", "sub", "mul", "quo", "quoint", "rem", "cmp", "pow"}
+		for _, c := range ctxs {
+			for _, x := range vals {
+				for _, op := range un {
+					if op == "quantize" {
+						for _, q := range []int{-1, 0, 2} {
+							g.emit(mkA(op, c, x, x, q, "", fresh), op)
+						}
+						continue
+					}
+					g.emit(mkA(op, c, x, x, 0, "", fresh), op)
+				}
+				for _, y := range vals {
+					for _, op := range bin {
+						g.emit(mkA(op, c, x, y, 0, "", fresh), op)
+					}
+				}
+			}
+		}
+	}
 }
